@@ -1,4 +1,5 @@
 import RPVerif.Model.RM
+import RPVerif.Lemmas.Launch
 
 /-!
 # C18 — The pilot offers exactly the nodes it was allocated
@@ -296,8 +297,98 @@ theorem C18_final (c : Cfg) (nodes : List Node) (cpn : Nat) (reach : List Nat) (
     obtain ⟨m, hm, rfl⟩ := mem_map.mp this
     exact ⟨m, hm, rfl, rfl, rfl, rfl⟩
 
+/-! ## PBSPro: nodes from the `exec_vnode` attribute -/
+
+/-- a strictly increasing list has no duplicates -/
+theorem strictSorted_lt_head (x : Nat) (l : List Nat) (h : RPVerif.Launch.StrictSorted (x :: l)) : ∀ y ∈ l, x < y := by
+  induction l generalizing x with
+  | nil => intro y hy; cases hy
+  | cons z zs ih =>
+    intro y hy
+    have h1 : x < z := h.1
+    rcases mem_cons.mp hy with rfl | hy
+    · exact h1
+    · exact Nat.lt_trans h1 (ih z h.2 y hy)
+
+theorem strictSorted_nodup (l : List Nat) (h : RPVerif.Launch.StrictSorted l) : l.Nodup := by
+  induction l with
+  | nil => exact nodup_nil
+  | cons x xs ih =>
+    have hx := strictSorted_lt_head x xs h
+    have hs : RPVerif.Launch.StrictSorted xs := by
+      cases xs with
+      | nil => trivial
+      | cons y ys => exact h.2
+    exact nodup_cons.mpr ⟨fun hm => Nat.lt_irrefl x (hx x hm), ih hs⟩
+
+/-- **every vnode of the allocation is offered exactly once**: whatever chunks `exec_vnode` lists
+    (a vnode may occur in several chunks, several vnodes in one), the vnode list has no duplicates,
+    contains exactly the vnodes named, and every slice has the reported size -/
+theorem C18_pbs_vnodes (chunks : List (List (Nat × Nat))) (vn : List Nat) (n : Nat) (h : pbsVnodes chunks = .ok (vn, n)) :
+    vn.Nodup
+    ∧ (∀ x, x ∈ vn ↔ ∃ c ∈ chunks, ∃ e ∈ c, e.1 = x)
+    ∧ (∀ c ∈ chunks, ∀ e ∈ c, e.2 = n) := by
+  unfold pbsVnodes at h
+  split at h
+  · rename_i m hm
+    simp only [Except.ok.injEq, Prod.mk.injEq] at h
+    obtain ⟨h1, h2⟩ := h
+    subst h1; subst h2
+    refine ⟨strictSorted_nodup _ (RPVerif.Launch.strictSorted_hostSet _), ?_, ?_⟩
+    · intro x
+      rw [RPVerif.Launch.mem_hostSet]
+      constructor
+      · intro hx
+        obtain ⟨e, he, rfl⟩ := mem_map.mp hx
+        obtain ⟨c, hc, hec⟩ := mem_flatten.mp he
+        exact ⟨c, hc, e, hec, rfl⟩
+      · rintro ⟨c, hc, e, hec, rfl⟩
+        exact mem_map.mpr ⟨e, mem_flatten.mpr ⟨c, hc, hec⟩, rfl⟩
+    · intro c hc e hec
+      have : e.2 ∈ RPVerif.Launch.hostSet (chunks.flatten.map (·.2)) := by
+        rw [RPVerif.Launch.mem_hostSet]
+        exact mem_map.mpr ⟨e, mem_flatten.mpr ⟨c, hc, hec⟩, rfl⟩
+      rw [hm] at this
+      simpa using this
+  · cases h
+  · cases h
+
+/-- the PBSPro node list built from it names every vnode once, in that order, with `ncpus` cores -/
+theorem C18_pbs_node_list (c : Cfg) (chunks : List (List (Nat × Nat))) (ls : List Line) (hosts : List Name)
+    (envCpus : Option Nat) (detected : Nat) (nodes : List Node) (cpn : Nat)
+    (hc : c.execVnode = some chunks) (h : initKind .pbspro c ls hosts envCpus detected = .ok (nodes, cpn)) :
+    (nodes.map (·.name.id)).Nodup ∧ (∀ x, x ∈ nodes.map (·.name.id) ↔ ∃ ch ∈ chunks, ∃ e ∈ ch, e.1 = x)
+    ∧ ∀ nd ∈ nodes, nd.cores.length = cpn := by
+  unfold initKind at h
+  simp only [hc] at h
+  cases hp : pbsVnodes chunks with
+  | error e => rw [hp] at h; cases h
+  | ok r =>
+    obtain ⟨vn, n⟩ := r
+    rw [hp] at h
+    simp only [Except.ok.injEq, Prod.mk.injEq] at h
+    obtain ⟨h1, h2⟩ := h
+    subst h1; subst h2
+    obtain ⟨a, b, _⟩ := C18_pbs_vnodes chunks vn n hp
+    have hspec := C18_node_list (vn.map (fun i => (({ id := i } : Name), n))) c.gpn
+    have hnames : (getNodeList (vn.map (fun i => (({ id := i } : Name), n))) c.gpn).map (·.name.id) = vn := by
+      have e2 : (getNodeList (vn.map (fun i => (({ id := i } : Name), n))) c.gpn).map (·.name.id)
+          = ((getNodeList (vn.map (fun i => (({ id := i } : Name), n))) c.gpn).map (·.name)).map (·.id) := by rw [map_map]; rfl
+      rw [e2, hspec.2.2.1, map_map, map_map]
+      exact map_id' vn
+    refine ⟨by rw [hnames]; exact a, by rw [hnames]; exact b, ?_⟩
+    intro nd hnd
+    have hlen := hspec.2.2.2.1
+    have : nd.cores.length ∈ (getNodeList (vn.map (fun i => (({ id := i } : Name), n))) c.gpn).map (fun n => n.cores.length) :=
+      mem_map.mpr ⟨nd, hnd, rfl⟩
+    rw [hlen, map_map] at this
+    obtain ⟨_, _, e⟩ := mem_map.mp this
+    exact e.symm
+
 /-! non-vacuity (tests) -/
-example : (initRM .torque ⟨4, 1, 1, 2, 8, 0, 0, [0], [], 1, 0⟩
+example : (pbsVnodes [[(3, 8)], [(3, 8), (1, 8)], [(1, 8)], [(7, 8)]]).toOption = some ([1, 3, 7], 8) := by decide
+
+example : (initRM .torque ⟨4, 1, 1, 2, 8, 0, 0, [0], [], 1, 0, none⟩
       [.host ⟨1, false, false⟩, .blank, .host ⟨2, false, false⟩, .host ⟨1, false, false⟩, .host ⟨3, false, false⟩] [] none 8 []).toOption.map
       (fun i => (i.nodeList.map (fun n => (n.name.id, n.index, n.cores)), i.agentNodes.map (·.name.id)))
     = some ([(1, 0, [.down, .free, .free, .free])], [2]) := by decide
